@@ -351,3 +351,11 @@ for _cls in ('GaussNewton', 'LevenbergMarquardt'):
                 env.eq(f'{tag}: the call given W1 uses W1', S_.calls[0][1].reshape(-1), rhs(W1))
                 env.eq(f'{tag}: the next call without a weight uses ' + ('W0' if ctor else 'no weight'), S_.calls[1][1].reshape(-1), rhs(W0 if ctor else I2))
     mk()
+
+
+# "all solvers": the steps above are stated for whatever the solver returns; that each shipped direct solver returns the solution of the
+# system it is handed, under each of its options, is its own contract (c10_solvers.py), discharged in this check too.
+from contracts import c10_solvers as _c10
+for _nm, _fn in (('PINV', _c10.pinv_), ('LSTSQ', _c10.lstsq_), ('Cholesky', _c10.chol), ('Cholesky.upper', _c10.chol_upper), ('Cholesky.batch', _c10.chol_batch)):
+    obligation(f'C07.callee.solver.{_nm}', functions=[f'pypose.optim.solver:{_nm.split(".")[0]}.forward'], max_paths=32, no_validate=True,
+               note='callee contract of the solver handed to GN / LM (same contract function as C10)')(_fn)
